@@ -266,7 +266,7 @@ func TestC20AcceptanceNoWrap(t *testing.T) {
 // server, and checks T + P + 1 + W < 4032 with P the production rotation-check
 // period in timeslots.
 func TestC20WindowSafety(t *testing.T) {
-	ev.Rule("C20(d): generated gaps g (dense within 5 of the trigger, random elsewhere): clock = offset+g, one granted step of the rotation loop, observe whether the window moved -> effective trigger T; generated distances d -> effective half-width W; P = ceil(production ReportMigrationFrequency / 300 s) from the prod-build job; check T+P+1+W < 4032, and at the other end of the window that neither the loop nor the catch-up at start-up (measured by restarting at drawn gaps) rotates while a report the clock rule still admits belongs to the closing week (smallest rotating gap - W >= 2016); non-trivial = gap within 5 of T or of 2016+W, or distance within 5 of W")
+	ev.Rule("C20(d): generated gaps g (dense within 5 of the trigger, random elsewhere): clock = offset+g, one granted step of the rotation loop, observe whether the window moved -> effective trigger T (and the same threshold on servers without any equipment, unregistered and registered); generated distances d -> effective half-width W; P = ceil(production ReportMigrationFrequency / 300 s) from the prod-build job; check T+P+1+W < 4032, and at the other end of the window that neither the loop nor the catch-up at start-up (measured by restarting at drawn gaps) rotates while a report the clock rule still admits belongs to the closing week (smallest rotating gap - W >= 2016); non-trivial = gap within 5 of T or of 2016+W, or distance within 5 of W")
 	server.VerifSetStepping(true)
 	defer server.VerifSetStepping(false)
 	glow.SetCurrentTimeslot(0)
@@ -326,6 +326,57 @@ func TestC20WindowSafety(t *testing.T) {
 		t.Fatalf("C20: rotation trigger is not a threshold: largest gap without rotation %d, smallest with rotation %d", maxNoRot, minRot)
 	}
 	T := maxNoRot
+	// The cadence must not depend on what the server holds: a server without any
+	// equipment (registered or not) rotates at the same gaps, so that the window
+	// is where the clock is when the first device arrives.
+	for _, registered := range []bool{false, true} {
+		d2 := world.NewServerDir(temp.Pub)
+		off0 := int64(s.S.VerifSnapshot().Offset)
+		glow.SetCurrentTimeslot(uint32(off0))
+		e, err := world.StartServer(d2)
+		if err != nil {
+			t.Fatal(err)
+		}
+		if registered {
+			if st, _, err := e.Register(gca.Pub, temp); err != nil || st != 200 {
+				t.Fatalf("register failed")
+			}
+		}
+		for _, g := range []int64{T, T + 1, T - 1, 3999, T + 1, 0} {
+			off := int64(e.S.VerifSnapshot().Offset)
+			glow.SetCurrentTimeslot(uint32(off + g))
+			if !world.Step(e.S, "migrate") {
+				t.Fatalf("C20: rotation loop of a server without equipment did not take the granted step")
+			}
+			moved := int64(e.S.VerifSnapshot().Offset) - off
+			ev.Eval(1)
+			if want := map[bool]int64{false: 0, true: 2016}[g > T]; moved != want {
+				glow.SetCurrentTimeslot(uint32(off))
+				e.Close()
+				os.RemoveAll(d2)
+				t.Fatalf("C20: a server without equipment (registered=%v) moved its window by %d at now-offset = %d; with a device the trigger is %d", registered, moved, g, T)
+			}
+			ev.NonTrivial(fmt.Sprintf("c20|idle|%v|%d", registered, g))
+		}
+		// the device that arrives now reports for the current slot
+		off := e.S.VerifSnapshot().Offset
+		glow.SetCurrentTimeslot(off + 5)
+		if registered {
+			if st, _, err := e.Authorize(a); err != nil || st != 200 {
+				t.Fatalf("authorize failed")
+			}
+			if err := e.SendUDP(ref.SignedReport(dev, 9, off+5, 77).Encode()); err != nil {
+				t.Fatal(err)
+			}
+			if got := e.S.VerifSnapshot().Reports[9][5].PowerOutput; got != 77 {
+				t.Fatalf("C20: the first device of a server that had idled through rotations reports for the current slot and the server holds %d", got)
+			}
+		}
+		glow.SetCurrentTimeslot(off)
+		e.Close()
+		os.RemoveAll(d2)
+		glow.SetCurrentTimeslot(uint32(off0))
+	}
 	for _, g := range gaps {
 		if g >= T-5 && g <= T+5 {
 			ev.NonTrivial(fmt.Sprintf("c20|gap|%d", g))
